@@ -44,6 +44,7 @@ fn run_one(s: &mut Side, op_s: &str, seed_note: &mut ()) -> String {
         Op::CanRead => format!("{}", s.ws.can_read()),
         Op::CanWrite => format!("{}", s.ws.can_write()),
         Op::SetBuf(..) => "ok".into(),
+        Op::SetLimits(..) => "ok".into(),
     }));
     match r {
         Ok(x) => x,
